@@ -43,14 +43,15 @@ func main() {
 		return
 	}
 	r := evidence.New("C18", "fault_enumeration")
-	r.Rule("seq: case = (generated docker config file: absent | absent directory | document with unknown top-level keys of every JSON type, credsStore/credHelpers, auths absent/null/with plain, unknown-field, legacy-field, legacy-URL-key and opaque entries; file mode; layout) × history of 8–30 Put/Get/Delete/reopen steps over 5–9 address forms of 2–3 hosts with credentials having empty parts, colons, non-ASCII and JSON-hostile text; after every step Get of every address, the parsed file, its mode and a freshly opened store are compared with the reference model. " +
-		"crash: case = scripted (document, prefix operations, one Put/Delete); the operation is killed before each of its file-system-mutating system calls in turn (exhaustive per case) and the file compared with the complete old and new documents. " +
-		"conc: case = (document, 1–3 non-aliasing addresses, 4–16 goroutines × 2–6 operations with unique credentials); porcupine per address over the recorded history plus the final file; a reader polls the file. " +
+	r.Rule("seq: case = (generated docker config file: absent | absent directory | document with unknown top-level keys of every JSON type, credsStore/credHelpers, auths absent/null/with plain, unknown-field, legacy-field, legacy-URL-key and opaque entries; file mode; layout; config path a regular file or a symbolic link — relative in the same directory, absolute or relative into another directory, dangling) × history of 8–30 Put/Get/Delete/reopen steps over 5–9 address forms of 2–3 hosts with credentials having empty parts, colons, non-ASCII and JSON-hostile text, one Put in six storing again exactly what Get currently answers, one case in five starting with Put(host, X) where only a legacy URL key holds X, followed by Delete of that key; after every step Get of every address, the parsed file, its mode and a freshly opened store are compared with the reference model. " +
+		"crash: case = scripted (14 templates: document, regular or symlinked config path, prefix operations, one Put/Delete); the operation is killed before each of its file-system-mutating system calls in turn (exhaustive per case) and the document read through the configured path compared with the complete old and new documents. " +
+		"conc: case = (document, 1–3 non-aliasing addresses, 4–16 goroutines × 2–6 operations with unique credentials); porcupine per address over the recorded history plus the final file; a reader polls the configured path (a third of the cases through a symbolic link). " +
 		"distinct = hash(phase, document shape, operation/address-form/credential-class sequence [, system-call sequence | observed interleaving]); " +
 		"non-trivial = seq: pre-existing document with ≥1 unknown top-level key and ≥2 auths entries and ≥1 effective Put and Delete; crash: ≥3 crash points, all enumerated; conc: ≥2 operations on one address overlapped in time, one of them a Put/Delete")
 	r.Assume("credentials and document strings are valid UTF-8 (JSON cannot carry other bytes)")
 	r.Assume("pre-existing documents are well-formed docker configs: auths is an object (or null/absent), credsStore a string or null, credHelpers an object of strings")
 	r.Assume("crash points are entries of file-system-mutating system calls as recognised by tools/crashat.c; a kill inside one write(2) is not explored (the data goes to a temporary file)")
+	r.Assume("the file is always read through the configured path; whether a symbolic link at that path survives a save is recorded, not judged")
 	r.Assume("Get of an address whose only matching entries are malformed (undecodable auth) is not judged")
 
 	// every temporary directory of the workers lives under one scratch directory that the
@@ -77,7 +78,7 @@ func main() {
 	if os.Getenv("VERIF_CRASHAT") == "" {
 		r.Violation("harness:no-crashat", "VERIF_CRASHAT is not set", nil)
 	} else {
-		worker.Run(r, worker.Opts{Phase: "crash", Total: r.N(110, 3300), Batch: 5, OnResult: byKey, Env: []string{tmpEnv}})
+		worker.Run(r, worker.Opts{Phase: "crash", Total: r.N(112, 3360), Batch: 5, OnResult: byKey, Env: []string{tmpEnv}})
 		r.Set("crash_points_exhaustive_per_case", r.Counter("crash_cases_fully_enumerated") == r.Counter("crash_cases_with_points"))
 	}
 	lap("crash")
@@ -212,6 +213,53 @@ func runSeq(i int, rng *rand.Rand) (res worker.Result) {
 	// a fixed slice of the cases carries "credsStore": "" (violation key file:credsStore-empty-dropped)
 	emptyCS := i%40 == 13
 	d := genDoc(rng, docOpts{entryKeys: allForms, emptyCreds: emptyCS, mustExist: emptyCS, bigDocument: rng.IntN(40) == 0})
+	if !d.AbsentDir && rng.IntN(4) == 0 {
+		d.setLink(linkKinds[rng.IntN(len(linkKinds))])
+	}
+	// "login again" slice: a legacy URL key of a pool host holds credential X, the bare
+	// host has no entry; the history starts with Put(host, X) — after which the file
+	// must have an exact entry for the host — and goes on to Delete the legacy key
+	var forced []seqStep
+	if i%5 == 1 && !d.Absent {
+		h := hosts[0]
+		legacy := ""
+		for _, a := range pool {
+			if a != h && toHost(a) == h {
+				legacy = a
+				break
+			}
+		}
+		if legacy != "" {
+			a, ok := d.Doc["auths"].(map[string]any)
+			if !ok {
+				a = map[string]any{}
+				d.Doc["auths"] = a
+			}
+			for k := range a {
+				if toHost(k) == h {
+					delete(a, k)
+				}
+			}
+			x := genCred(rng)
+			x.U = "again" + x.U
+			e := entryFor(x)
+			if rng.IntN(2) == 0 {
+				e["email"] = "someone@example.com"
+			}
+			a[legacy] = e
+			d.Entries = len(a)
+			d.retext()
+			d.Shape += "|relogin"
+			forced = append(forced, seqStep{Op: "put", Addr: h, Cred: &x})
+			switch rng.IntN(4) {
+			case 0:
+				forced = append(forced, seqStep{Op: "reopen"})
+			case 1:
+				forced = append(forced, seqStep{Op: "get", Addr: h})
+			}
+			forced = append(forced, seqStep{Op: "delete", Addr: legacy})
+		}
+	}
 	kind := "file"
 	if !d.HasHelpers && rng.IntN(4) == 0 {
 		kind = "dyn"
@@ -230,7 +278,7 @@ func runSeq(i int, rng *rand.Rand) (res worker.Result) {
 	m := d.newModel()
 	var hist []seqStep
 	wit := func() map[string]any {
-		return map[string]any{"store": kind, "document": string(clip(d.Text, 4000)), "doc_state": d.Shape, "mode": fmt.Sprintf("%o", d.Mode), "pool": pool, "history": hist}
+		return map[string]any{"store": kind, "document": string(clip(d.Text, 4000)), "doc_state": d.Shape, "mode": fmt.Sprintf("%o", d.Mode), "config_path_is_symlink": d.Link, "pool": pool, "history": hist}
 	}
 	st, err := openStore(kind, path)
 	if err != nil {
@@ -327,14 +375,31 @@ func runSeq(i int, rng *rand.Rand) (res worker.Result) {
 	steps := 8 + rng.IntN(23)
 	var opsig strings.Builder
 	effPut, effDel := 0, 0
+	linkGone := false
 	for s := 0; s < steps; s++ {
 		addr := pool[rng.IntN(len(pool))]
-		switch op := rng.IntN(20); {
+		op := rng.IntN(20)
+		var fc *cred
+		isForced := false
+		if len(forced) > 0 {
+			isForced = true
+			f := forced[0]
+			forced = forced[1:]
+			addr, fc = f.Addr, f.Cred
+			op = map[string]int{"put": 0, "delete": 9, "get": 15, "reopen": 18}[f.Op]
+		}
+		switch {
 		case op < 9: // Put
 			c := genCred(rng)
-			colon := rng.IntN(15) == 0
+			colon := fc == nil && rng.IntN(15) == 0
 			if colon {
 				c.U = "us:er" + fmt.Sprint(rng.IntN(10))
+			}
+			if fc != nil {
+				c = *fc
+			} else if acc, judged, _ := m.get(addr); !colon && judged && rng.IntN(6) == 0 && (acc[0] != cred{}) && !strings.Contains(acc[0].U, ":") {
+				c = acc[0] // storing again exactly what Get answers now (exact entry or legacy key)
+				res.Count("puts_identical_to_current_answer", 1)
 			}
 			hist = append(hist, seqStep{Op: "put", Addr: addr, Cred: &c})
 			err := st.Put(ctx, addr, c.lib())
@@ -357,7 +422,7 @@ func runSeq(i int, rng *rand.Rand) (res worker.Result) {
 				res.Observe("credential_classes", c.class())
 			}
 		case op < 15: // Delete, preferring existing entries
-			if rng.IntN(3) > 0 {
+			if !isForced && rng.IntN(3) > 0 {
 				var have []string
 				for _, a := range pool {
 					if _, ok := m.auths()[a]; ok {
@@ -396,6 +461,17 @@ func runSeq(i int, rng *rand.Rand) (res worker.Result) {
 		}
 		if !checkState(fmt.Sprintf("after step %d (%s %q)", s, hist[len(hist)-1].Op, hist[len(hist)-1].Addr), hist[len(hist)-1].Addr) {
 			return
+		}
+		// whether the link itself survives a save is not in the statement: recorded only
+		if d.Link != "" && !linkGone && !isLink(path) {
+			linkGone = true
+			res.Count("symlink_replaced_by_regular_file_on_save", 1)
+		}
+	}
+	if d.Link != "" {
+		res.Count("seq_cases_with_symlinked_config_path", 1)
+		if !linkGone && m.saves > 0 {
+			res.Count("symlink_survived_saves", 1)
 		}
 	}
 	if ents, _ := filepath.Glob(filepath.Join(filepath.Dir(path), "oras_credstore_temp_*")); len(ents) > 0 {
